@@ -45,6 +45,10 @@ REG_SRC = {
     'reg:(a-3)^(b+c)': 'def rs3(a, b, c):\n    return (a - 3) ^ (b + c)\n',
     'reg:(1-a)/2+b*0.5': 'def rs4(a, b, c):\n    return (1 - a) / 2 + b * 0.5\n',
     'reg:(a|b)*c-(-2+c)': 'def rs5(a, b, c):\n    return (a | b) * c - (-2 + c)\n',
+    # division by / inverse of a one-coefficient operand (monomial over monomial: common factors are cancelled symbolically)
+    'reg:a/c.grade(0)+b': 'def rs6(a, b, c):\n    return a / c.grade(0) + b\n',
+    'reg:(a*b.grade(0).inv())^c': 'def rs7(a, b, c):\n    return (a * b.grade(0).inv()) ^ c\n',
+    'reg:c.grade(0)*a*c.grade(0).inv()': 'def rs8(a, b, c):\n    return c.grade(0) * a * c.grade(0).inv() - b\n',
 }
 _REG_CACHE = {}
 
